@@ -41,6 +41,10 @@
 (*   bang_comment_dropped_compressed   compressed output has no comments    *)
 (*   nsrule_atrule_swallowed  NsRuleDest rejects the at-rule when it is     *)
 (*       finished; the Drop impl prints to stderr and compilation succeeds  *)
+(*   atrule_decls_hoisted  (the C20 defect seen through comments) what is   *)
+(*       written directly inside an at-rule block nested in a style rule is *)
+(*       collected in one rule placed at the FRONT of the block: a comment  *)
+(*       after a nested rule is emitted before that rule's comments         *)
 (***************************************************************************)
 EXTENDS Integers, Sequences, FiniteSets, TLC
 
@@ -67,50 +71,73 @@ MatchClose(prog, j, depth) ==
   ELSE IF prog[j].k \in (OnceKinds \cup LoopKinds \cup {"if0"}) THEN MatchClose(prog, j + 1, depth + 1)
   ELSE MatchClose(prog, j + 1, depth)
 
-Acc0 == [err |-> 0, reached |-> <<>>, comments |-> <<>>, lost |-> <<>>]
+Acc0 == [err |-> 0, reached |-> <<>>, comments |-> <<>>, hoist |-> <<>>, lost |-> <<>>]
 
 (* dests: the kinds of the destination-opening containers around the         *)
 (* statement, outermost first; swallowed = an at-rule block directly in a   *)
 (* nested-property block is among them                                      *)
 Swallowed(dests) == \E i \in 1..(Len(dests) - 1) : dests[i] = "nsprop" /\ dests[i + 1] \in {"media", "atrule"}
 
-RECURSIVE Exec(_, _, _, _, _, _)
-(* execute the statements j..last (a block body) *)
-Exec(prog, j, last, sfx, dests, acc) ==
+RECURSIVE OwnsRule(_)
+(* does the innermost at-rule destination own a copy of a style rule's selector? *)
+OwnsRule(dests) ==
+  IF Len(dests) = 0 THEN FALSE
+  ELSE LET k == dests[Len(dests)] IN
+       IF k = "rule" THEN TRUE
+       ELSE IF k \in {"media", "atrule"} THEN OwnsRule(SubSeq(dests, 1, Len(dests) - 1))
+       ELSE FALSE
+
+RECURSIVE Exec(_, _, _, _, _, _, _, _)
+(* execute the statements j..last (a block body).  mode "h": the innermost   *)
+(* destination hoists what is written directly in it (deviation), so such    *)
+(* comments are collected in acc.hoist instead of acc.comments.              *)
+Exec(prog, j, last, sfx, dests, mode, acc, Dev) ==
   IF j > last \/ acc.err = 1 THEN acc
   ELSE LET st == prog[j] IN
        IF st.k \in CommentKinds THEN
-            Exec(prog, j + 1, last, sfx, dests,
+            Exec(prog, j + 1, last, sfx, dests, mode,
                  IF st.k = "silent" THEN acc
-                 ELSE LET name == "c" \o IdStr(st.id) \o sfx IN
-                      [acc EXCEPT !.comments = Append(@, [t |-> CommentText(st, sfx), bang |-> IF st.k \in {"bang", "bangi"} THEN 1 ELSE 0]),
+                 ELSE LET name == "c" \o IdStr(st.id) \o sfx
+                          c == [t |-> CommentText(st, sfx), bang |-> IF st.k \in {"bang", "bangi"} THEN 1 ELSE 0] IN
+                      [acc EXCEPT !.comments = IF mode = "h" THEN @ ELSE Append(@, c),
+                                  !.hoist = IF mode = "h" THEN Append(@, c) ELSE @,
                                   !.reached = Append(@, name),
-                                  !.lost = IF Swallowed(dests) THEN Append(@, name) ELSE @])
+                                  !.lost = IF Swallowed(dests) THEN Append(@, name) ELSE @],
+                 Dev)
        ELSE IF st.k \in MarkKinds THEN
             LET name == "m" \o IdStr(st.id) \o sfx IN
-            Exec(prog, j + 1, last, sfx, dests,
-                 [acc EXCEPT !.reached = Append(@, name), !.lost = IF Swallowed(dests) THEN Append(@, name) ELSE @])
+            Exec(prog, j + 1, last, sfx, dests, mode,
+                 [acc EXCEPT !.reached = Append(@, name), !.lost = IF Swallowed(dests) THEN Append(@, name) ELSE @], Dev)
        ELSE IF st.k = "error" THEN [acc EXCEPT !.err = 1]
        ELSE \* a container: body = j+1 .. e-1
             LET e  == MatchClose(prog, j + 1, 0)
                 nd == IF st.k \in DestKinds THEN Append(dests, st.k) ELSE dests
+                \* a style rule / at-rule block is an item of its own in the output: its comments are
+                \* collected separately and appended as a whole; nested-property blocks and the
+                \* control-flow / mixin containers write into the destination around them
+                item == st.k \in {"rule", "media", "atrule"}
+                nm == IF ~item THEN mode
+                      ELSE IF st.k \in {"media", "atrule"} /\ "atrule_decls_hoisted" \in Dev /\ OwnsRule(nd) THEN "h" ELSE "n"
                 a0 == IF st.k = "atrule"
                       THEN LET name == "m" \o IdStr(st.id) \o sfx IN
                            [acc EXCEPT !.reached = Append(@, name), !.lost = IF Swallowed(nd) THEN Append(@, name) ELSE @]
                       ELSE acc
-                a1 == IF st.k = "if0" THEN a0
+                ain == IF item THEN [a0 EXCEPT !.comments = <<>>, !.hoist = <<>>] ELSE a0
+                a1 == IF st.k = "if0" THEN ain
                       ELSE IF st.k \in LoopKinds
-                      THEN Exec(prog, j + 1, e - 1, sfx \o "-2", nd, Exec(prog, j + 1, e - 1, sfx \o "-1", nd, a0))
-                      ELSE Exec(prog, j + 1, e - 1, sfx, nd, a0)
-            IN Exec(prog, e + 1, last, sfx, dests, a1)
+                      THEN Exec(prog, j + 1, e - 1, sfx \o "-2", nd, nm, Exec(prog, j + 1, e - 1, sfx \o "-1", nd, nm, ain, Dev), Dev)
+                      ELSE Exec(prog, j + 1, e - 1, sfx, nd, nm, ain, Dev)
+                a2 == IF item THEN [a1 EXCEPT !.comments = a0.comments \o a1.hoist \o a1.comments, !.hoist = a0.hoist] ELSE a1
+            IN Exec(prog, e + 1, last, sfx, dests, mode, a2, Dev)
 
-Run(prog) == Exec(prog, 1, Len(prog), "", <<>>, Acc0)
+RunDev(prog, Dev) == Exec(prog, 1, Len(prog), "", <<>>, "n", Acc0, Dev)
+Run(prog) == RunDev(prog, {})
 
 ---------------------------------------------------------------------------
 (* C36: the comment sequence of the output                                  *)
 
 Comments36(prog, style, Dev) ==
-  LET r == Run(prog) IN
+  LET r == RunDev(prog, Dev) IN
   IF style = "compressed"
   THEN (IF "bang_comment_dropped_compressed" \in Dev THEN <<>>
         ELSE LET b == SelectSeq(r.comments, LAMBDA c : c.bang = 1) IN [i \in 1..Len(b) |-> b[i].t])
@@ -118,10 +145,15 @@ Comments36(prog, style, Dev) ==
 
 Observe36(prog, style, Dev) == [st |-> "ok", comments |-> Comments36(prog, style, Dev)]
 
-AllDevs36 == {"bang_comment_dropped_compressed"}
+AllDevs36 == {"bang_comment_dropped_compressed", "atrule_decls_hoisted"}
+
+RECURSIVE SetToSeq36(_)
+SetToSeq36(S) == IF S = {} THEN <<>> ELSE LET x == CHOOSE x \in S : TRUE IN <<x>> \o SetToSeq36(S \ {x})
+
+(* the observables predicted by the sets of deviations that change the result: [d |-> names, o |-> obs] *)
 DevMap36(prog, style, ideal) ==
-  LET o == Observe36(prog, style, AllDevs36) IN
-  IF o = ideal THEN <<>> ELSE [d \in AllDevs36 |-> o]
+  IF Observe36(prog, style, AllDevs36) = ideal THEN <<>>
+  ELSE SetToSeq36({a \in {[d |-> SetToSeq36(S), o |-> Observe36(prog, style, S)] : S \in (SUBSET AllDevs36) \ {{}}} : a.o # ideal})
 
 ---------------------------------------------------------------------------
 (* C21: the acceptance relation between a program and an observation        *)
